@@ -104,3 +104,16 @@ for _shape, _spec in SHAPES.items():
         loops_in={'Attribute._write_values': [dict(inv=['nvals == len(__done)', 'implies(rc is not None, bts == at_entry(bts) + concat_enc(rc.value, __done))'], havoc_ghost=['nvals'])],
                   'Attribute.flatten_list': [dict(inv=['res == __done'], havoc_lists=['res'], list_elem='val', havoc_ghost=[])]},
         ensures=ens)
+
+# ---------------------------------------------------------------------------------------------- inferred code is a defined / admissible one (G2)
+VALID = {'Attribute': list(range(1, 28)), 'EFLRAttribute': [23, 24], 'EFLROrTextAttribute': [23, 20], 'DTimeAttribute': [21, 7, 2],
+         'DimensionAttribute': [18], 'StatusAttribute': [26], 'TextAttribute': [20], 'IdentAttribute': [19],
+         'NumericAttribute': list(range(1, 19))}
+for _cls, _codes in VALID.items():
+    _in = ' or '.join(f'result.value == {c}' for c in _codes)
+    CONTRACTS[f'Attribute.inferred_representation_code[{_cls}]'] = dict(
+        target='Attribute.inferred_representation_code', kind='get', self_class=_cls, props=['C04', 'C05', 'C12'],
+        self_fields={'_value': 'opq:stored'}, params={}, returns=f'enumv:{RC}?',
+        stubs={'_guess_repr_code': dict(returns=f'enumv:{RC}?', raises=True, pure=True)},
+        raises={'RuntimeError': 'self._guess_repr_code() is not None and not (' + _in.replace('result.value', 'self._guess_repr_code().value') + ')'},
+        ensures=[('inferred-code-absent-or-one-the-attribute-type-admits', f'result is None or {_in}')])
